@@ -227,6 +227,8 @@ def _gen_source(r, i):
     kind = r.weighted([(6, "good"), (2, "missing"), (2, "truncated"), (2, "garbage")])
     fmt = r.choice(FORMATS)
     s = {"type": kind, "format": fmt, "records": []}
+    if fmt.startswith("records.") and r.chance(30):
+        s["anon"] = True      # the same bytes under a name that says nothing about the codec: recognised by content
     if kind in ("good", "truncated"):
         n = r.choice([0, 1, 2, 3, 4, 6, 9]) if kind == "good" else r.choice([2, 3, 5, 8])
         descs = r.sample(DESCS, r.randint(1, 3))
@@ -775,7 +777,7 @@ def run_real(case):
         it = iter(built)
         paths, counts, fails = [], [], []
         for i, s in enumerate(case["sources"]):
-            path = os.path.join(d, f"s{i}.{s['format']}")
+            path = os.path.join(d, f"s{i}.dat" if s.get("anon") else f"s{i}.{s['format']}")
             cnt, fk = _write_source(s, path, it)
             if cnt is None:  # truncated compressed source: the intact prefix is what the reader yields from it alone
                 n = 0
@@ -983,7 +985,7 @@ def classify(case, obs):
     o, out = case["opts"], case["out"]
     b = [f"bucket:{case['bucket']}", f"out:{out['kind']}:{out['what']}" + (":split" if out["split"] else "")]
     for s in case["sources"]:
-        b.append(f"source:{s['type']}:{s['format']}")
+        b.append(f"source:{s['type']}:{s['format']}" + (":anon-name" if s.get("anon") else ""))
     b.append("placement:" + "".join(s["type"][0] for s in case["sources"]))
     for k in ("skip", "count", "selector", "no_compile", "fields", "exclude", "multits", "list"):
         if o[k]:
